@@ -487,12 +487,13 @@ def genItemCase (cfg : GCfg) (fam : String) (seed idx : Nat) : Case := runGen se
         let own ← genDup cfg own
         let attrs ← interleave own fo
         let discr ← if kind == .unit && (← chance 1 10) then pure (some [toString (i * 3)]) else pure none
-        pure ({ attrs, name := vnames.getD i "Z", fields, discr } : Variant)
-      pure (Item.enum_ { attrs := [], vis, name := "X", generics, variants := vs })
+        -- raw identifiers as variant / type names (printed without `r#` by Debug)
+        pure ({ attrs, name := (if raw && i == 0 then "r#A" else vnames.getD i "Z"), fields, discr } : Variant)
+      pure (Item.enum_ { attrs := [], vis, name := (if raw then "r#X" else "X"), generics, variants := vs })
     else
       let kind ← pickW [(3, FieldsKind.unnamed), (3, .named), (1, .unit)]
       let fields ← genFields cfg ctx traits kind 200 raw
-      pure (Item.struct_ { attrs := [], vis, name := "X", generics, fields }))
+      pure (Item.struct_ { attrs := [], vis, name := (if raw then "r#X" else "X"), generics, fields }))
   -- derive_ex arguments: through the macro attribute, through #[derive_ex] attributes, or both
   let ditems ← genDeriveItems cfg traits 110
   let shared ← if ← chance cfg.boundPct 200 then genBound 120 else pure none
